@@ -61,7 +61,7 @@ ENGINES["syncobj"] = {
 ENGINES["client"] = {
     "pkg": "./harness/client",
     "instr": ["tun/client:2", "spec/tun:1", "util/acceptor:1", "rtt:2"],
-    "osredirect": "tun/client/config.go",
+    "osredirect": "tun/client/*",
     "inject": {"tun/client/zz_verif_export.go": "inject/client/zz_verif_export.go", "tun/client/ui/build/index.html": "inject/client/index.html",
                "util/pipe/pipe_unix.go": "inject/pipe/pipe_unix.go"},
     "real": ["tun/client/config.go (NewConfig, validate, writeFile; its os import redirected to the simulated disk), gopkg.in/yaml.v3"],
